@@ -839,9 +839,16 @@ func (d *docGen) sels(container int, depth int) []sx.S {
 					fdirs = append(fdirs, sx.L("d", "0", "-"))
 					d.defectInfo = sx.L("defect", "misplaced-directive", fid, "0")
 				case "undefined-inline-cond":
+					// a type no one defined (99), a directive's name (98 = skip), a list of an undefined type (97)
 					iid := d.id()
-					out = append(out, sx.L("in", iid, "99", sx.L("dirs"), sx.L("f", d.id(), "-", "0", sx.L("args"), sx.L("dirs"))))
-					d.defectInfo = sx.L("defect", "undefined-inline-cond", iid, "99")
+					cond := []string{"99", "98", "97"}[r.Intn(3)]
+					out = append(out, sx.L("in", iid, cond, sx.L("dirs"), sx.L("f", d.id(), "-", "0", sx.L("args"), sx.L("dirs"))))
+					d.defectInfo = sx.L("defect", "undefined-inline-cond", iid, cond)
+				case "typename-arg":
+					// __typename declares no arguments
+					tid := d.id()
+					out = append(out, sx.L("f", tid, "-", "0", sx.L("args", sx.L("a", "9", sx.L("i", "1"))), sx.L("dirs")))
+					d.defectInfo = sx.L("defect", "undeclared-arg", tid, "9")
 				case "directive-on-fragment-definition":
 					// the definition comes after the spread that refers to it (fragments are printed last)
 					d.nfrag++
@@ -1387,7 +1394,7 @@ var profC10 = profile{noWrongType: true, unboundValues: true, pFail: 0.03, pIll:
 // c10Gen: valid documents with exactly one injected defect of the property's catalogue.
 func c10Gen(r *rand.Rand, tier string) []Case {
 	kinds := []string{"unknown-field", "undeclared-arg", "missing-required", "unknown-directive", "misplaced-directive",
-		"undefined-inline-cond", "undefined-fragment-cond", "directive-on-fragment-definition", "meta-field"}
+		"undefined-inline-cond", "undefined-fragment-cond", "directive-on-fragment-definition", "meta-field", "typename-arg"}
 	n := 3500
 	if tier == "thorough" {
 		n = 50000
